@@ -177,6 +177,7 @@ pub fn calls(inp: &Input) -> Vec<(String, Box<dyn Fn() -> u64 + Send + Sync + '_
         v.push((format!("all_pairs(w={weighted},fast)"), Box::new(move || digest_pairs(&dijkstra::all_pairs(g, weighted, None, None, false, false).expect("all_pairs")))));
         v.push((format!("all_pairs(w={weighted},target,first_only)"), Box::new(move || digest_pairs(&dijkstra::all_pairs(g, weighted, Some(n / 2), Some(9.0), true, true).expect("all_pairs")))));
         v.push((format!("multi_source(w={weighted},5 sources)"), Box::new(move || digest_pairs(&dijkstra::multi_source(g, weighted, vec![3, 1, 4, 15, 9], None, None, false, true).expect("multi_source")))));
+        v.push((format!("multi_source(w={weighted},repeated sources [3,3,17,3,5,5])"), Box::new(move || digest_pairs(&dijkstra::multi_source(g, weighted, vec![3, 3, 17, 3, 5, 5], None, None, false, true).expect("multi_source")))));
         v.push((format!("betweenness_centrality(w={weighted},normalized=false)"), Box::new(move || digest_map(&betweenness::betweenness_centrality(g, weighted, false).expect("betweenness")))));
         v.push((format!("closeness_centrality(w={weighted},wf=true)"), Box::new(move || digest_map(&closeness::closeness_centrality(g, weighted, true).expect("closeness")))));
         return v;
@@ -187,6 +188,7 @@ pub fn calls(inp: &Input) -> Vec<(String, Box<dyn Fn() -> u64 + Send + Sync + '_
         v.push((format!("all_pairs(w={weighted},target,first_only)"), Box::new(move || digest_pairs(&dijkstra::all_pairs(g, weighted, Some(n / 2), Some(6.0), true, true).expect("all_pairs")))));
         v.push((format!("multi_source(w={weighted},all)"), Box::new(move || digest_pairs(&dijkstra::multi_source(g, weighted, (0..n).rev().collect(), None, None, false, true).expect("multi_source")))));
         v.push((format!("multi_source(w={weighted},5 sources)"), Box::new(move || digest_pairs(&dijkstra::multi_source(g, weighted, vec![3, 1, 4, 15, 9], None, None, false, true).expect("multi_source")))));
+        v.push((format!("multi_source(w={weighted},repeated sources [3,3,17,3,5,5])"), Box::new(move || digest_pairs(&dijkstra::multi_source(g, weighted, vec![3, 3, 17, 3, 5, 5], None, None, false, true).expect("multi_source")))));
         v.push((format!("get_all_shortest_paths_involving(w={weighted})"), Box::new(move || {
             let mut items: Vec<String> = dijkstra::get_all_shortest_paths_involving(g, n / 3, weighted).iter().map(|spi| format!("{:016x}:{:?}", spi.distance.to_bits(), spi.paths)).collect();
             items.sort(); // multiset: its order is a hash order, not a schedule effect
